@@ -46,6 +46,7 @@ def sweep_scenario(rnd, sid):
                   {"name": "P1", "type": "pipe", "a": "J0", "b": "J1", "len": 10.0, "diam": 0.5, "rough": 130.0, "minor": 0.0,
                    "cv": False, "init": 1}]
     s["sweep"] = "J0" if j0["dem"] else ""
+    s["must_solve"] = "pressure sweep on reservoir-junction-junction"
     return s
 
 
